@@ -6,6 +6,9 @@ Engine E1: exhaustive enumeration of
               x default_filters x page filter x filters of the calling expression  (D and P must not apply there),
   (3) bind  : where the user callables come from (context, <%! %>, imports=, a <% %> local) and decoy context
               variables named like the built-in flags,
+  (3b) nest : an expression whose value, while being computed, runs another filtered expression (plain / buffered
+              def, capture(def), a context callable rendering a second Template) x every ordered (outer, inner) pair of
+              {decode.utf8, decode.latin1, decode.ascii, h, x, f1}; two filters of that set in one list on one value,
   (4) spell : every spelling of the expression text from a bounded grammar (specials only inside brackets or
               string literals) x spellings of the filter part,
 each printed from a small IR (mc/c02_ref.py), compiled and rendered by the real Template, and compared with the
@@ -46,7 +49,7 @@ RULE = (
     "pipe/tagf/bind: one case = (program printed from the IR, Template arguments, context value); programs are the full "
     "product of the stated dimensions, distinct by construction (checked by hashing). spell: one case = (expression "
     "text, filter part), de-duplicated on the text. Non-trivial = the effective pipeline (D + P + local, after `n`) has "
-    ">= 2 distinct stages other than str/unicode, or an `n` occurs; for spell: the expression holds | } { # or a quote "
+    ">= 2 distinct stages other than str/unicode, or an `n` occurs (nest: always - two pipelines are in flight); for spell: the expression holds | } { # or a quote "
     "inside a bracket or string literal."
 )
 ASSUMPTIONS = [
@@ -56,6 +59,7 @@ ASSUMPTIONS = [
     "filter arguments are literals (the source generator that re-emits filter arguments is property C19's subject)",
     "what <%call expr=...> does with the callee's return value is not fixed by the statement: both 'written as it is' and 'treated as ${expr} with an empty local filter list' are accepted",
     "a user filter or decode.<enc> that raises must make render() raise (any exception class); nothing else is demanded there",
+    "nested pipelines: the reference composition is unchanged - each expression uses its own filter list whatever else is evaluated meanwhile; capture(f) is the documented built-in (fresh buffer, returns the content); concurrent renders in other threads are not enumerated here",
     "tagging user filters convert their argument with str() so that Markup.__add__ escaping never enters the comparison",
     "CPython eval/exec, str, markupsafe, html.entities, urllib.parse are trusted",
 ]
@@ -65,6 +69,8 @@ BOUNDS = {
         "3-filter lists containing n or >=2 user filters x 3 default_filters x 3 page settings x body x 2 values",
         "tagf": "filter= lists of <=2 x {def, buffered def called plain and with |n, anonymous block, named block, text} x buffer_filters 3 (defs) / 1 x 3 (D,P) settings x 2 values; "
         "buffered def without filter= x 3 calling filters x 3 buffer_filters x 6 D x 6 P x 5 values",
+        "nest": "36 ordered (outer, inner) filter pairs of {decode.utf8, decode.latin1, decode.ascii, h, x, f1} x inner pipeline run in {def, buffered def, capture(def), second template with local filter, second template with default_filters} x outer filter given {locally after n, as default_filters}; "
+        "36 pairs in one list x {n + list, default_filters=[] + list, default_filters=[first] + [second]} x 4 values (utf-8 / latin-1 / ascii bytes, str)",
         "bind": "lists of <=2 with a user filter x binding {<%! %>, imports=, <% %> local} x D/P/B names from {imports=, <%! %>} x 5 positions x 2 (D,P); decoy context names x lists <=2; raising stages",
         "spell": "string atoms (content 1 of 12 symbols x 4 filter parts, content 2 x 2; 4 quote styles, r/f prefixes); 26 core atoms x 40 wrappers x 2; 2 atoms x 40^2 wrappers x 2; "
         "90 spacings of the filter part x 22 expressions; 15 filter-argument spellings x 5; 8 x 6 junctions x 4 x 2; inner spaces; 8 f-string forms",
@@ -74,6 +80,7 @@ BOUNDS = {
         "4-filter lists containing n or >=2 user filters x 3 default_filters x 3 page settings x body x 2 values",
         "tagf": "filter= lists of <=3 x 7 constructs (quick's + def called with |n) x buffer_filters 3/1 x 6 (D,P) settings x 2 values; buffered def without filter= as quick",
         "bind": "as quick",
+        "nest": "as quick",
         "spell": "quick with 4 filter parts for atoms and depth 1, depth 2 over 4 atoms x 40^2 x 2; + atoms with content 3 x 2; 26 core atoms x 40^2 wrappers; 2 atoms x 40^3 wrappers",
     },
 }
@@ -284,6 +291,76 @@ def gen_bind(tier, seed):
                     yield p, (0,)
 
 
+NEST_FILTERS = ["decode.utf8", "decode.latin1", "decode.ascii", "h", "x", "f1"]
+NEST_RUNNERS = ["def", "bdef", "capture", "tmpl-L", "tmpl-D"]
+
+
+def nest_value(f, seed):
+    """a value on which the filter is in its documented domain and, for decode.*, whose text depends on the encoding"""
+    i = seed % 4
+    return {"decode.utf8": "@helper:NU%d" % i, "decode.latin1": "@helper:NL%d" % i, "decode.ascii": "@helper:NA%d" % i}.get(f, POOL_A[i])
+
+
+def nest_prog(fo, fi, runner, omode, seed):
+    """outer expression ${box.put(<runs the inner pipeline>, v) | fo}: while its value is computed another
+    expression, filtered with fi, is evaluated (in a def, through capture(), or in a second template)"""
+    inner = ["expr", "w", ["n", fi], None]
+    sub = None
+    body = []
+    if runner == "def":
+        body.append(["def", "d", {"filter": None, "buffered": False}, [["text", "<"], inner, ["text", ">"]]])
+        run = "d()"
+    elif runner == "bdef":
+        body.append(["def", "d", {"filter": None, "buffered": True}, [["text", "<"], inner, ["text", ">"]]])
+        run = "d()"
+    elif runner == "capture":
+        body.append(["def", "d", {"filter": None, "buffered": False}, [["text", "<"], inner, ["text", ">"]]])
+        run = "capture(d)"
+    else:
+        run = "sub()"
+        if runner == "tmpl-L":
+            sub = {"D": None, "P": None, "B": [], "bind": "imports", "pbind": "imports", "decoy": False, "body": [["text", "<"], inner, ["text", ">"]]}
+        else:
+            sub = {"D": [fi], "P": None, "B": [], "bind": "imports", "pbind": "imports", "decoy": False, "body": [["text", "<"], ["expr", "w", [], None], ["text", ">"]]}
+        sub["vals"] = {"w": nest_value(fi, seed)}
+        sub["fam"] = "nest-sub"
+    src = "box.put(%s, v)" % run
+    outer = ["expr", src, ["n", fo], None] if omode == "L" else ["expr", src, [], None]
+    body += [["text", "["], outer, ["text", "|"], ["expr", "box.pop()", ["n"], None], ["text", "]"]]
+    return {
+        "D": [fo] if omode == "D" else None,
+        "P": None,
+        "B": [],
+        "bind": "imports",
+        "pbind": "imports",
+        "decoy": False,
+        "body": body,
+        "fam": "nest",
+        "pos": runner + "/" + omode,
+        "vals": {"v": nest_value(fo, seed), "w": nest_value(fi, seed)},
+        "sub": sub,
+        "nest": [fo, fi],
+    }
+
+
+def gen_nest(tier, seed):
+    """every ordered (outer, inner) pair of filters x how the inner pipeline is run x how the outer filter is given;
+    then two filters of the set in one list on one value"""
+    for fo in NEST_FILTERS:
+        for fi in NEST_FILTERS:
+            for runner in NEST_RUNNERS:
+                for omode in ("L", "D"):
+                    yield nest_prog(fo, fi, runner, omode, seed), (None,)
+    i = seed % 4
+    vals = ["@helper:NU%d" % i, "@helper:NL%d" % i, "@helper:NA%d" % i, POOL_A[i]]
+    for fa in NEST_FILTERS:
+        for fb in NEST_FILTERS:
+            for L, D in ((["n", fa, fb], None), ([fa, fb], []), ([fb], [fa])):
+                p = pipe_prog(L, D, None, "body", bind="imports")
+                p["fam"] = "multi"
+                yield p, vals
+
+
 def spell_prog(src, suffix, filters, pre="[", post="]"):
     body = []
     if pre:
@@ -381,16 +458,30 @@ def check_prog(prog, vnames, st, tags=None, fam=None, lex=False, nt=None):
         cexc = ("exc", type(e).__name__, str(e)[:300], "compile")
     if nt is None:
         nt = nontrivial(prog)
+    sub = prog.get("sub")
+    subt = None
+    if sub is not None:
+        stext, skw = c02_ref.print_program(sub)
+        sctx = c02_env.resolve(c02_ref.context_for(sub, None))
+        try:
+            subt = Template(stext, **skw)
+        except BaseException as e:  # noqa
+            tmpl, cexc = None, ("exc", type(e).__name__, str(e)[:300], "compile-sub")
     for vname in vnames:
         ctxj = c02_ref.context_for(prog, vname)
         ctx = c02_env.resolve(ctxj)
+        mctx = ctx
+        if sub is not None:
+            # the same callable on both sides in meaning: "render the second template with its own filters"
+            ctx = dict(ctx, sub=c02_ref.reference_sub(sub, sctx))
+            mctx = dict(mctx, sub=(lambda: subt.render_unicode(**sctx)))
         exp = c02_ref.reference(prog, ctx)
         st.oracles["reference_" + exp[0]] += 1
         if tmpl is None:
             obs = cexc
         else:
             try:
-                obs = ("ok", tmpl.render_unicode(**ctx))
+                obs = ("ok", tmpl.render_unicode(**mctx))
             except BaseException as e:  # noqa
                 obs = ("exc", type(e).__name__, str(e)[:300], "render")
         st.evaluations += 1
@@ -399,7 +490,7 @@ def check_prog(prog, vnames, st, tags=None, fam=None, lex=False, nt=None):
         st.transitions += exp[2]
         if nt:
             st.nontrivial += 1
-        st.outcomes[(fam if fam in ("pipe", "tagf", "bind", "decoy") else "spell", exp[0], obs[0] if obs[0] == "ok" else "exc:" + obs[1])] += 1
+        st.outcomes[(fam if fam in ("pipe", "tagf", "bind", "decoy", "nest", "multi") else "spell", exp[0], obs[0] if obs[0] == "ok" else "exc:" + obs[1])] += 1
         bad = None
         if exp[0] == "ok":
             st.oracles["render_equals_reference"] += 1
@@ -487,6 +578,7 @@ def plan(tier, seed):
         jobs.append({"kind": "tagf", "tier": tier, "seed": seed, "shard": i, "nshards": N_TAGF})
     for i in range(N_BIND):
         jobs.append({"kind": "bind", "tier": tier, "seed": seed, "shard": i, "nshards": N_BIND})
+    jobs.append({"kind": "nest", "tier": tier, "seed": seed, "shard": 0, "nshards": 1})
     return jobs
 
 
@@ -516,13 +608,14 @@ def _run_job(job, st):
             st.extra["spell_" + fam] = st.extra.get("spell_" + fam, 0) + 1
             seen.add(zlib.crc32(text.encode("utf-8")))
     else:
-        gen = {"pipe": gen_pipe, "tagf": gen_tagf, "bind": gen_bind}[job["kind"]]
+        gen = {"pipe": gen_pipe, "tagf": gen_tagf, "bind": gen_bind, "nest": gen_nest}[job["kind"]]
         for i, (prog, vi) in enumerate(gen(tier, seed)):
             if i % ns != sh:
                 continue
-            text, kw = check_prog(prog, [values[j] for j in vi], st)
+            text, kw = check_prog(prog, [values[j] if isinstance(j, int) else j for j in vi], st)
             nprog += 1
-            seen.add((zlib.crc32(text.encode("utf-8")), zlib.crc32(json.dumps(kw, sort_keys=True).encode())))
+            rest = [kw, prog.get("vals"), c02_ref.print_program(prog["sub"]) if prog.get("sub") else None]
+            seen.add((zlib.crc32(text.encode("utf-8")), zlib.crc32(json.dumps(rest, sort_keys=True).encode())))
     st.extra["programs_" + job["kind"]] = nprog
     st.extra["duplicate_programs"] = st.extra.get("duplicate_programs", 0) + (nprog - len(seen))
     return st
@@ -538,7 +631,7 @@ def replay(case):
         text, _ = c02_ref.print_program(prog)
         check_lex(prog, text, st, case.get("tags"))
     else:
-        check_prog(prog, [case["ctx"]["v"]], st, tags=case.get("tags"), lex=False)
+        check_prog(prog, [None if prog.get("vals") else case["ctx"]["v"]], st, tags=case.get("tags"), lex=False)
     if st.violations:
         v = st.violations[0]
         text, kw = c02_ref.print_program(prog)
@@ -574,6 +667,13 @@ def corpus(limit=400):
 
     streams.append(bind_stream())
 
+    def nest_stream():
+        for p, _ in gen_nest("quick", seed):
+            if p.get("sub") is None:
+                yield p, None
+
+    streams.append(nest_stream())
+
     def spell_stream(fams):
         for prog, vi, fam, tags in gen_spell("quick", seed):
             if fam in fams:
@@ -594,6 +694,8 @@ def corpus(limit=400):
             for prog, _ in it:
                 text, kw = c02_ref.print_program(prog)
                 vname = values[vcycle % len(values)] if prog["fam"] != "spell" else values[0]
+                if prog.get("vals"):
+                    vname = None
                 key = (text, json.dumps(kw, sort_keys=True), json.dumps(vname))
                 if key in seen:
                     continue
